@@ -295,6 +295,16 @@ pub fn check_case(c: &Case) -> CheckResult {
                     continue;
                 }
                 cx.commit(ops)?;
+                // the later commit may end with operations identical to the fetched list (e.g.
+                // it re-creates the same task): then the list is not stale at all
+                let tail_equal = {
+                    let log: Vec<&Operation> = cx.log.iter().map(|(o, _)| o).collect();
+                    log.len() >= stale.len() && log[log.len() - stale.len()..].iter().zip(stale.iter()).all(|(a, b)| *a == b)
+                };
+                if tail_equal {
+                    rep.class("fetched-list-equals-the-new-tail (skipped)");
+                    continue;
+                }
                 let res = block_on(cx.w.reps[0].replica.commit_reversed_operations(stale))
                     .map_err(|e| Failure::new("undo-error", format!("{when}: {e}")))?;
                 crate::ensure!(
